@@ -71,6 +71,28 @@ GATE_RE = re.compile(r'\b(Admitted|admit|Axiom|Axioms|Parameter|Parameters|Conje
                      r'|Admit\s+Obligations')
 
 
+def clean_build_copy(tag):
+    """Full build from clean in a private copy of the sources (does not disturb the shared .vo files)."""
+    d = os.path.join(WORKROOT, 'cleanbuild_%s_%d' % (tag, os.getpid()))
+    shutil.rmtree(d, ignore_errors=True)
+    os.makedirs(d)
+    try:
+        shutil.copy(os.path.join(COQ, '_CoqProject'), d)
+        for root, _, files in os.walk(THEORIES):
+            for fn in files:
+                if fn.endswith('.v'):
+                    rel = os.path.relpath(os.path.join(root, fn), COQ)
+                    os.makedirs(os.path.dirname(os.path.join(d, rel)), exist_ok=True)
+                    shutil.copy(os.path.join(root, fn), os.path.join(d, rel))
+        rc, out = _run(['coq_makefile', '-f', '_CoqProject', '-o', 'Makefile'], cwd=d)
+        if rc != 0:
+            return False, out
+        rc, out = _run(['make', '-j%d' % max(2, NCPU // 2)], cwd=d, timeout=3000)
+        return rc == 0, out[-3000:]
+    finally:
+        shutil.rmtree(d, ignore_errors=True)
+
+
 def grep_gate():
     """No Admitted / admit / Axiom / Parameter / Conjecture / kernel check switches anywhere."""
     hits = []
